@@ -4,6 +4,10 @@ CONSTANTS NMax = 35
  AllPos = FALSE
  DetMax = 6
  Draws = 3
+ PosPer = 2
+ Extra = 400
+ PredExtra = 250
+ IseqExtra = 60
 INVARIANT ExactPre
 INVARIANT PatternHolds
 INVARIANT FoldTheorems
